@@ -69,6 +69,32 @@ CALLER_BODIES = [
          rules=[{"name": "solver-call -> stub", "re": r"this->template computeEigenVectors<es>\(vp, m, b\);", "sub": "solver_computeEigenVectors(p_vp, p_m, b);", "min": 1},
                 {"name": "sorter-call", "re": r"tfel::math::internals::SortEigenVectors<N>::exe\(vp, m, o\);", "sub": "SortEigenVectorsN_exe(p_vp, p_m, o);", "min": 1}]),
 ]
+# the tvector overloads: every call into the computeEigenValues / sortEigenValues family is mapped to its C counterpart
+# (may-fire rules, so that a rewired wrapper is still extracted and then checked against the callees' contracts)
+FAMILY_RULES = [
+    {"name": "local tvector", "re": r"tvector<3u, T> vp;", "sub": "tvec3 vp;"},
+    {"name": "call: 3-scalar sorted overload", "re": r"this->template computeEigenValues<es>\(vp\(0\), vp\(1\), vp\(2\), o, b\)", "sub": "stensor_computeEigenValues(&(vp).v[0], &(vp).v[1], &(vp).v[2], o, b)"},
+    {"name": "call: 3-scalar unsorted overload (solver)", "re": r"this->template computeEigenValues<es>\(vp\(0\), vp\(1\), vp\(2\), b\)", "sub": "solver_computeEigenValues(&(vp).v[0], &(vp).v[1], &(vp).v[2], b)"},
+    {"name": "call: tvector sorted overload", "re": r"this->template computeEigenValues<es>\(vp, o, b\)", "sub": "stensor_computeEigenValues_tv(&(vp), o, b)"},
+    {"name": "call: tvector unsorted overload (solver)", "re": r"this->template computeEigenValues<es>\(vp, b\)", "sub": "solver_computeEigenValues_tv(&(vp), b)"},
+    {"name": "call: sortEigenValues", "re": r"\bsortEigenValues\(vp, o\)", "sub": "sortEigenValues((vp), o)"},
+    {"name": "tvector element", "re": r"\bvp\((\d)\)", "sub": r"(vp).v[\1]"},
+    {"name": "no unmapped member call may remain", "forbid": r"this->"},
+]
+CALLER_BODIES += [
+    dict(name="stensor_computeEigenValues_tv", file=INC + "stensor.ixx",
+         pattern=r"void stensor<N, T>::computeEigenValues\(\s*tvector<3u, T>& vp, const EigenValuesOrdering o, const bool b\) const", rules=FAMILY_RULES),
+    dict(name="stensor_computeEigenValues_ret", file=INC + "stensor.ixx",
+         pattern=r"tvector<3u, T> stensor<N, T>::computeEigenValues\(\s*const EigenValuesOrdering o, const bool b\) const", rules=FAMILY_RULES),
+]
+REPL_FAMILY = ["solver_computeEigenValues", "solver_computeEigenValues_tv", "sortEigenValues"]
+for n in (2, 3):
+    JOBS.append(Job("computeEigenValues_tv_N%d" % n, "callers.c.in", enforce="stensor_computeEigenValues_tv", bodies=CALLER_BODIES,
+                    replace=REPL_FAMILY + ["stensor_computeEigenValues"], defines=["NDIM=%d" % n], min_obligations=3,
+                    expect_labels=["result-sorted-in-requested-order", "result-is-permutation-of-solver-output"]))
+    JOBS.append(Job("computeEigenValues_ret_N%d" % n, "callers.c.in", enforce="stensor_computeEigenValues_ret", bodies=CALLER_BODIES,
+                    replace=REPL_FAMILY + ["stensor_computeEigenValues", "stensor_computeEigenValues_tv"], defines=["NDIM=%d" % n], min_obligations=2,
+                    expect_labels=["result-sorted-in-requested-order", "result-is-permutation-of-solver-output"]))
 for n in (2, 3):
     JOBS.append(Job("computeEigenValues_N%d" % n, "callers.c.in", enforce="stensor_computeEigenValues", bodies=CALLER_BODIES,
                     replace=["solver_computeEigenValues", "SortEigenValuesN_exe"], defines=["NDIM=%d" % n], min_obligations=3,
